@@ -171,7 +171,7 @@ def build():
                      show_controller=ObjS("ShowController")),
         show=ObjS("Show"), show_steps=ObjS("StepList"), show_config=CFG, callback=Init(opt_cb),
         start_callback=Init(opt_cb), start_step=Int, start_running=Bool, _delay_handler=Opt(H),
-        next_step_index=Int, current_step_index=Int, next_step_time=Real, name=Str, loops=Int, id=Int,
+        next_step_index=Int, current_step_index=Opt(Int), next_step_time=Real, name=Str, loops=Int, id=Int,
         _players=Init(players_init), debug=Bool, _stopped=Bool, _total_steps=Int, context=Str),
         invariants=[
             ("T: every live timer of this show is the one in _delay_handler",
@@ -263,7 +263,7 @@ def build():
          modifies=["self._delay_handler", "ghost.live", "ghost.n_live"], raises={}, inline_calls=True)
     MODS = ["self._delay_handler", "self.next_step_index", "self.current_step_index", "self.next_step_time",
             "self.loops", "self._players", "self._stopped", "self.start_callback", "ghost.live", "ghost.n_live"]
-    CUR = "self.current_step_index"
+    CUR = "(self.current_step_index if self.current_step_index is not None else -1)"     # None: not started yet
     STEP_DT = "(duration(" + CUR + ") / self.show_config.speed)"
     WILL_SCHEDULE = "(not self.show_config.manual_advance and " + STEP_DT + " > 0 and not pause_after_step)"
     COMPLETES = "(old(self.next_step_index) >= self._total_steps and old(self.loops) == 0)"
@@ -337,17 +337,29 @@ def build():
                   ("a show that starts paused does not schedule its second step",
                    "implies(not self.start_running and not old(self._stopped), ghost.n_live == 0)")],
          modifies=MODS, raises={}, emits=lambda I, env, res: None)
+    C.finite_checks.append(common.native_demo_check(
+        "c17_request_before_synced_start.py",
+        "an advance / resume / pause request on a show that waits for its sync point does not cancel its start"))
+    C.finite_checks.append(common.native_demo_check(
+        "c17_first_step_time_0s.py", "a show whose first step time is written '0s' runs and completes on schedule"))
+    WAITING = "(old(self.current_step_index) is None and not old(self._stopped))"
+    WS = ("WS: a show that is still waiting for its (synchronised) start keeps it: a pause / resume / advance / step_back "
+          "request before the first step does nothing - it must not cancel the pending start (the show would start off the "
+          "sync grid, without its played events and without stopping the show it replaces)",
+          "implies(" + WAITING + ", self._delay_handler is old(self._delay_handler) and ghost.n_live == old(ghost.n_live) "
+          "and n_play() == 0 and n_posts() == 0 and self.start_callback == old(self.start_callback) and "
+          "self.current_step_index is None)")
     C.fn("RunningShow.pause",
-         ensures=[("paused: no step is pending", "ghost.n_live == 0 and self._delay_handler is None"),
-                  ("no player is touched", "n_play() == 0 and n_stop_cb() == 0")],
+         ensures=[("paused: no step is pending", "implies(not " + WAITING + ", ghost.n_live == 0 and "
+                                                 "self._delay_handler is None)"),
+                  ("no player is touched", "n_play() == 0 and n_stop_cb() == 0"), WS],
          modifies=["self._delay_handler", "ghost.live", "ghost.n_live"], raises={})
     C.fn("RunningShow.resume",
-         ensures=[STAY, ("the next step is planned from now", "implies(not old(self._stopped), True)")],
-         modifies=MODS, raises={})
+         ensures=[STAY, WS], modifies=MODS, raises={})
     C.fn("RunningShow.advance", params=dict(steps=Int, show_step=Opt(Int)),
          requires=[("a target step is a step number", "show_step is None or show_step >= 0")],
-         ensures=[STAY], modifies=MODS, raises={})
-    C.fn("RunningShow.step_back", params=dict(steps=Int), ensures=[STAY], modifies=MODS, raises={})
+         ensures=[STAY, WS], modifies=MODS, raises={})
+    C.fn("RunningShow.step_back", params=dict(steps=Int), ensures=[STAY, WS], modifies=MODS, raises={})
     GRID = (250, 1000, 333)
 
     def on_grid(I, t, sync):
